@@ -153,4 +153,19 @@ example : runOps (fun _ => .missing) {} [.assign "A".toList "1".toList, .prefixe
     runOps (fun _ => .missing) {} [.assign "A".toList "1".toList] := by
   rw [C09_prefixes_erasable]; rfl
 
+/-! ### order on one name: a plain assignment, then an export, then `unset` (the stale shell variable must neither win nor survive) -/
+
+/-- after `N=a` and then `export N=b` -- whatever the state before -- `$N` is `b` and a child sees `b`: the exported value shadows the
+shell variable the first assignment may have left -/
+theorem C09_export_after_assign (fs : Str → FsRes) (s : St) (n a b : Str) :
+    let s2 := (step fs (step fs s (.assign n a)).1 (.export n b)).1
+    expandsTo s2 n = b ∧ childSees s2 [] n = some b := by
+  simp [step, expandsTo, childSees, lookup_put_same, lookup_nil]
+
+/-- ... and a following `unset N` removes it everywhere, the stale shell variable included -/
+theorem C09_unset_after_export_after_assign (fs : Str → FsRes) (s : St) (n a b : Str) (h : unsetNameOk n = true) :
+    let s3 := (step fs (step fs (step fs s (.assign n a)).1 (.export n b)).1 (.unset n)).1
+    expandsTo s3 n = [] ∧ childSees s3 [] n = none ∧ lookup s3.vars n = none := by
+  simp [step, h, expandsTo, childSees, lookup_del_same, lookup_nil]
+
 end Cicada.EnvCd
